@@ -251,6 +251,14 @@ def generate(ctx):
         cases.append(("random", random_case(rng, thorough)))
     for _ in range(3000 if thorough else 300):
         cases.append(("random-decimal", random_case(rng, thorough, decimal=True)))
+    # long histories on one object (same calibration): the statement says "every sequence", the streams above stop at 15 calls
+    for _ in range(60 if thorough else 8):
+        cal = rng.choice(list(CALIBS))
+        ctor, (mina, maxa, minp, maxp) = CALIBS[cal]
+        ops = []
+        for _ in range(rng.randint(40, 120)):
+            ops.append(rng.choice(alphabet(cal)))
+        cases.append(("random-long", ("servo", ctor, ops)))
     return cases
 
 
